@@ -156,6 +156,10 @@ F_REAL2U = z3.Function("real2u", V.REAL, USORT)
 F_TRUTH = z3.Function("py_truth", USORT, V.BOOL)
 
 
+_ALLOCATORS = {"lib:numpy." + f for f in ("zeros", "ones", "empty", "full", "zeros_like", "ones_like", "empty_like", "full_like", "array",
+                                         "vstack", "hstack", "concatenate", "arange")} | {"meth:copy", "meth:astype"}
+
+
 def abs_value(ex, name, args, kwargs):
     """abstract mode: f(args) as an uninterpreted, deterministic function of its operands"""
     kw = sorted(kwargs)
@@ -167,6 +171,8 @@ def abs_value(ex, name, args, kwargs):
     t = _uf(fname, len(terms))(*terms) if terms else z3.Const("uf_" + fname, USORT)
     o = Opaque(term=t, name=fname)
     o.ghost["truth"] = F_TRUTH(t)
+    if name in _ALLOCATORS:
+        o.ghost["fresh_alloc"] = True
     return o
 
 
@@ -725,10 +731,20 @@ def _da_factory(owner):
 @factory("Dataset")
 def make_dataset(ex, name, env, owner="caller", **kw):
     ds = Obj("Dataset")
-    ds.fields["vars"] = SymDict(name + ".vars", closed=False, owner=owner)
+    closed = bool(kw.get("closed"))          # closed=True: exactly the listed variables / dimensions exist (iteration is concrete)
+    ds.fields["vars"] = SymDict(name + ".vars", closed=closed, owner=owner)
     ds.fields["vars"].ghost["entry_factory"] = _da_factory(owner)
-    ds.fields["dims"] = SymDict(name + ".dims", closed=False, owner=owner)
+    ds.fields["dims"] = SymDict(name + ".dims", closed=closed, owner=owner)
     ds.ghost["owner"] = owner
+    for dname, dspec in (kw.get("dim_sizes") or {}).items():
+        # dimension lengths: a concrete int, or 'opaque' (an unknown object), or a size symbol of the contract
+        if isinstance(dspec, int):
+            val = dspec
+        elif dspec == "opaque":
+            val = Opaque(name=f"{name}.size.{dname}")
+        else:
+            val = env[dspec]
+        ds.fields["dims"].entries[dname] = [True, val]
     # variables with a declared type: present, holding a symbolic array owned like the dataset
     from .typespec import make_value
     for vname, vspec in (kw.get("vars") or {}).items():
@@ -917,6 +933,27 @@ def uxda_rename(ex, obj, args, kwargs, node, env, fr):
     o.fields.update(obj.fields)
     o.fields["dims"] = tuple(m.get(d, d) for d in obj.fields["dims"])
     return o
+
+
+@method("Dataset", "call:set_coords")
+def ds_set_coords(ex, obj, args, kwargs, node, env, fr):
+    trusted(ex, "Dataset.set_coords(names): a dataset with the same variables (some of them marked as coordinates)")
+    return obj
+
+
+@method("Dataset", "variables")
+def ds_variables(ex, base, node, env, fr):
+    return base.fields["vars"]
+
+
+@method("Dataset", "dims")
+def ds_dims(ex, base, node, env, fr):
+    return base.fields["dims"]
+
+
+@method("Dataset", "sizes")
+def ds_sizes(ex, base, node, env, fr):
+    return base.fields["dims"]          # mapping dimension name -> length
 
 
 @method("SymDict", "call:get")
